@@ -1,6 +1,6 @@
 #!/usr/bin/env python3
 """Import a confirmed seeded change into /verif/seeded/<id>/ (patch.diff, demonstration, meta.json).
-usage: tools/seeded_import.py <source dir> <eval json from tools/seeded.py> <needs: one-line description of what it takes to manifest>"""
+usage: tools/seeded_import.py <source dir> <eval json from tools/seeded.py> <needs: one-line description of what it takes to manifest> [name]"""
 import json
 import os
 import shutil
@@ -12,7 +12,7 @@ ok = ev.get("demo_original_passes") and ev.get("patch_applies") and ev.get("buil
 if not ok:
     print("NOT CONFIRMED, not imported:", src)
     sys.exit(1)
-name = os.path.basename(src.rstrip("/"))
+name = sys.argv[4] if len(sys.argv) > 4 else os.path.basename(src.rstrip("/"))
 dst = os.path.join(VERIF, "seeded", name)
 os.makedirs(dst, exist_ok=True)
 for f in ("patch.diff", "demo.c", "demo.sh", "notes.txt"):
